@@ -126,6 +126,34 @@ def run_case(case):
                                         kernel_width=case["kw"], crop=case["crop"],
                                         output_eigenvalue=True, show_pbar=False)
         mps, eig = app.run()
+        if case["eseed"] % 5 == 1 and case["crop"]:
+            # history: the same calibration first fails in its output step (crop=None cannot be
+            # compared), the caller repairs the setting on the object and runs it again: the
+            # maps must be those of a calibration that never failed
+            app2 = mr.app.EspiritCalib(ksp, calib_width=case["cw"], thresh=case["thresh"],
+                                       kernel_width=case["kw"], crop=None,
+                                       output_eigenvalue=True, show_pbar=False)
+            failed_first = False
+            try:
+                app2.run()
+            except Exception:
+                failed_first = True
+            if failed_first:
+                app2.crop = case["crop"]
+                mps2, eig2_ = app2.run()
+                dz = int(np.sum((np.sum(np.abs(mps2), axis=0) == 0)
+                                != (np.sum(np.abs(mps), axis=0) == 0)))
+                # (the phase normalisation ran twice on the repaired object: equal up to
+                # round-off, identical zero pattern)
+                rt_ = 1e-9 if dt == np.complex128 else 1e-4
+                if dz or mps2.shape != mps.shape or np.max(np.abs(mps2 - mps)) > rt_ or \
+                        np.max(np.abs(np.asarray(eig2_) - np.asarray(eig))) > rt_:
+                    return violated(sig, "a calibration object whose first run() failed in the "
+                                    "output step (crop=None) and was then repaired returns other "
+                                    "maps than a fresh one: max diff %.3g, %d voxels with a "
+                                    "different zero pattern" % (
+                                        float(np.max(np.abs(mps2 - mps))), dz), wit,
+                                    mech="rerun-after-failure")
     except Exception as e:
         inn = e
         while inn.__cause__ is not None:
